@@ -502,6 +502,15 @@ class MATD3(MultiAgentRLAlgorithm):
                     max_action,
                 )
 
+            # Keep evaluation-mode actions inside the action space as well (the actor
+            # only guarantees this when its head squashes the output)
+            if not training and not self.discrete_actions:
+                actions = torch.clamp(
+                    actions,
+                    torch.as_tensor(self.min_action[idx], device=actions.device),
+                    torch.as_tensor(self.max_action[idx], device=actions.device),
+                )
+
             action_dict[agent_id] = actions.cpu().numpy()
 
         discrete_action_dict = None
